@@ -495,6 +495,7 @@ func dialCases(r *run.R) {
 	}
 
 	realListenerCases(r, d, now)
+	listenHistories(r, now)
 }
 
 // realListenerCases: the real listener as the server. Ground truth: the certificate it serves is fetched
@@ -654,6 +655,158 @@ func realListenerCases(r *run.R, d *dialer, now time.Time) {
 			}
 		}
 		stop2()
+	}
+}
+
+// listenHistories: ONE transport, several Listen calls of which some fail (UDP port taken), on a mock
+// clock that is then moved one period ahead. Every listener that is open must roll its advertised
+// hashes like the listener of a transport whose only Listen succeeded (the control, same process, same
+// moment): "at every instant the served certificate is valid now and for at least the clock-skew
+// allowance" cannot hold for a listener whose certificate manager no longer rolls. The control also
+// calibrates the bounded real-time wait the bare mock clock needs (no roll of the control: inconclusive).
+func listenHistories(r *run.R, now time.Time) {
+	patterns := [][]string{{"fail", "ok"}, {"ok", "fail", "ok"}, {"fail", "fail", "ok"}, {"ok", "close", "ok"}}
+	for pi, pat := range patterns {
+		caseID := fmt.Sprintf("listen-history/%s", strings.Join(pat, "+"))
+		if !r.Want(caseID) || r.TooMany() {
+			continue
+		}
+		rng := r.Rand(81, uint64(pi))
+		key, err := hostKey(rng, ktEd25519)
+		if err != nil {
+			r.Inconclusive(caseID, err.Error())
+			return
+		}
+		at := now.Truncate(time.Millisecond)
+		type node struct {
+			mc   *clock.Mock
+			tr   tpt.Transport
+			cm   *quicreuse.ConnManager
+			lns  []tpt.Listener
+			open []tpt.Listener
+		}
+		mk := func() (*node, error) {
+			n := &node{mc: clock.NewMock()}
+			n.mc.Set(at)
+			cm, err := quicreuse.NewConnManager(quic.StatelessResetKey{}, quic.TokenGeneratorKey{})
+			if err != nil {
+				return nil, err
+			}
+			tr, err := libp2pwebtransport.New(key, nil, cm, nil, nil, libp2pwebtransport.WithClock(n.mc))
+			if err != nil {
+				cm.Close()
+				return nil, err
+			}
+			n.tr, n.cm = tr, cm
+			return n, nil
+		}
+		closeNode := func(n *node) {
+			for _, l := range n.open {
+				l.Close()
+			}
+			n.tr.(io.Closer).Close()
+			n.cm.Close()
+		}
+		subj, err := mk()
+		if err != nil {
+			r.Inconclusive(caseID, err.Error())
+			continue
+		}
+		ctrl, err := mk()
+		if err != nil {
+			closeNode(subj)
+			r.Inconclusive(caseID, err.Error())
+			continue
+		}
+		var taken []*net.UDPConn
+		failed, setupBad := 0, ""
+		for _, step := range pat {
+			switch step {
+			case "ok":
+				l, err := subj.tr.Listen(ma.StringCast("/ip4/127.0.0.1/udp/0/quic-v1/webtransport"))
+				if err != nil {
+					setupBad = "Listen on a free port failed: " + err.Error()
+					break
+				}
+				subj.open = append(subj.open, l)
+			case "close":
+				if len(subj.open) > 0 {
+					subj.open[0].Close()
+					subj.open = subj.open[1:]
+				}
+			case "fail":
+				u, err := net.ListenUDP("udp4", &net.UDPAddr{IP: net.IPv4(127, 0, 0, 1)})
+				if err != nil {
+					setupBad = err.Error()
+					break
+				}
+				taken = append(taken, u)
+				port := u.LocalAddr().(*net.UDPAddr).Port
+				if l, err := subj.tr.Listen(ma.StringCast(fmt.Sprintf("/ip4/127.0.0.1/udp/%d/quic-v1/webtransport", port))); err == nil {
+					l.Close() // the port could be shared after all: not the history we wanted
+				} else {
+					failed++
+				}
+			}
+		}
+		cl, cerr := ctrl.tr.Listen(ma.StringCast("/ip4/127.0.0.1/udp/0/quic-v1/webtransport"))
+		if cerr == nil {
+			ctrl.open = append(ctrl.open, cl)
+		}
+		done := func() {
+			closeNode(subj)
+			closeNode(ctrl)
+			for _, u := range taken {
+				u.Close()
+			}
+		}
+		wantFails := 0
+		for _, s := range pat {
+			if s == "fail" {
+				wantFails++
+			}
+		}
+		if setupBad != "" || cerr != nil || len(subj.open) == 0 || failed != wantFails {
+			r.Count("listen_history_setup_not_as_planned", 1)
+			done()
+			continue
+		}
+		before := map[tpt.Listener]string{}
+		for _, l := range append(append([]tpt.Listener{}, subj.open...), ctrl.open...) {
+			before[l] = l.Multiaddr().String()
+		}
+		// one whole period ahead: every certificate served before is past its end
+		subj.mc.Set(at.Add(period))
+		ctrl.mc.Set(at.Add(period))
+		rolled := func(l tpt.Listener) bool { return l.Multiaddr().String() != before[l] }
+		ctrlRolled := false
+		for w := 0; w < 1000 && !ctrlRolled; w++ { // bounded wait for the bare mock (not an oracle)
+			ctrlRolled = rolled(ctrl.open[0])
+			if !ctrlRolled {
+				time.Sleep(5 * time.Millisecond)
+			}
+		}
+		r.Eval(1)
+		if !ctrlRolled {
+			r.Count("listen_history_control_did_not_roll(load)", 1)
+			done()
+			continue
+		}
+		time.Sleep(500 * time.Millisecond)
+		var stuck []string
+		for _, l := range subj.open {
+			if !rolled(l) {
+				stuck = append(stuck, l.Multiaddr().String())
+			}
+		}
+		r.Count("listen_histories_with_failed_listens_checked", 1)
+		r.Nontrivial(caseID)
+		if len(stuck) > 0 {
+			r.Violation("rollover:listener-never-rolls-after-listen-history/"+strings.Join(pat, "+"), caseID,
+				fmt.Sprintf("one period after its start a listener of a transport with the Listen history %v still advertises the hashes of the expired certificates, while the listener of a transport whose only Listen succeeded has rolled", pat),
+				map[string]any{"history": pat, "stuck_listener_addresses": stuck, "control_before": before[ctrl.open[0]], "control_after": ctrl.open[0].Multiaddr().String()})
+		}
+		done()
 	}
 }
 
